@@ -452,6 +452,27 @@ impl Part for Filters {
                             );
                         }
                     }
+                    // stable: items that tie keep their input order, ascending and descending alike
+                    // (observable where ties are distinguishable: "a"/"A", 1/1.0, twins)
+                    let all_known = (0..n).all(|i| (0..i).all(|j| known_cmp(&key_vals[i], &key_vals[j], cs).is_some()));
+                    if all_known && out.fail.is_none() {
+                        let mut want = key_vals.clone();
+                        want.sort_by(|a, b| {
+                            let o = known_cmp(a, b, cs).unwrap();
+                            if c.reverse {
+                                o.reverse()
+                            } else {
+                                o
+                            }
+                        });
+                        let show = |v: &[Value]| v.iter().map(|x| format!("{x:?}|{:?}", x.kind())).collect::<Vec<_>>();
+                        if show(&want) != show(&got) {
+                            out.set_fail(
+                                format!("sort_not_stable:{class}"),
+                                format!("`{src}` on {c:?}: a stable sort gives {:?}, the filter returned {:?}", show(&want), show(&got)),
+                            );
+                        }
+                    }
                 }
             }
             Err(e) => out.set_fail(format!("sort_err:{class}"), format!("`{src}` on {c:?} failed: {e}")),
